@@ -447,6 +447,91 @@ def control_flow_normal_form(tree: ast.Module) -> ast.Module:
     return tree
 
 
+def append_loops_to_comprehensions(tree: ast.Module) -> ast.Module:
+    """`xs = []` followed (directly) by `for v in it: [t = e]* ; xs.append(E)`  ->  `xs = [E' for v in it]` with the loop-local temporaries substituted.
+    Conditions: the temporaries are plain names assigned once in the body and used nowhere outside the loop, the target variables are not used after the
+    loop, nothing else in the body, no else-clause.  (The converse of comprehensions_to_loops: either spelling can be the one a rule was written for.)"""
+    tree = copy.deepcopy(tree)
+
+    def names_in(n, ctx=(ast.Load, ast.Store, ast.Del)):
+        return {x.id for x in ast.walk(n) if isinstance(x, ast.Name) and isinstance(x.ctx, ctx)}
+
+    def rewrite_block(stmts, outer_rest_names):
+        out = []
+        i = 0
+        while i < len(stmts):
+            st = stmts[i]
+            for fld in ("body", "orelse", "finalbody"):
+                sub = getattr(st, fld, None)
+                if isinstance(sub, list) and sub and isinstance(sub[0], ast.stmt) and not isinstance(st, (ast.ClassDef, ast.FunctionDef, ast.AsyncFunctionDef)):
+                    after = set()
+                    for r in stmts[i + 1:]:
+                        after |= names_in(r)
+                    setattr(st, fld, rewrite_block(sub, outer_rest_names | after | (names_in(st) if isinstance(st, (ast.For, ast.While)) else set())))
+            if isinstance(st, ast.Try):
+                for h in st.handlers:
+                    h.body = rewrite_block(h.body, outer_rest_names)
+            tgt = None
+            if isinstance(st, ast.Assign) and len(st.targets) == 1 and isinstance(st.targets[0], ast.Name) and isinstance(st.value, ast.List) and not st.value.elts:
+                tgt = st.targets[0].id
+            elif isinstance(st, ast.AnnAssign) and isinstance(st.target, ast.Name) and isinstance(st.value, ast.List) and not st.value.elts:
+                tgt = st.target.id
+            nxt = stmts[i + 1] if i + 1 < len(stmts) else None
+            if tgt is not None and isinstance(nxt, ast.For) and not nxt.orelse and nxt.body:
+                body = nxt.body
+                last = body[-1]
+                temps = {}
+                ok = isinstance(last, ast.Expr) and isinstance(last.value, ast.Call) and isinstance(last.value.func, ast.Attribute) and last.value.func.attr == "append" and \
+                    isinstance(last.value.func.value, ast.Name) and last.value.func.value.id == tgt and len(last.value.args) == 1 and not last.value.keywords
+                if ok:
+                    for b in body[:-1]:
+                        if isinstance(b, ast.Assign) and len(b.targets) == 1 and isinstance(b.targets[0], ast.Name) and b.targets[0].id not in temps and \
+                                not any(isinstance(x, (ast.Yield, ast.YieldFrom, ast.Await, ast.NamedExpr, ast.Lambda)) for x in ast.walk(b.value)):
+                            temps[b.targets[0].id] = b.value
+                        else:
+                            ok = False
+                            break
+                if ok:
+                    rest_names = set(outer_rest_names)
+                    for r in stmts[i + 2:]:
+                        rest_names |= names_in(r)
+                    loop_vars = names_in(nxt.target, (ast.Store,))
+                    if (set(temps) | loop_vars) & rest_names or tgt in names_in(nxt.iter) or any(tgt in names_in(v) for v in temps.values()) or \
+                            tgt in names_in(last.value.args[0]) or (set(temps) & loop_vars):
+                        ok = False
+                if ok:
+                    # a temporary that is read more than once must not be re-evaluated if its value involves a call (it might not be pure)
+                    reads = {}
+                    for b in list(body[:-1]) + [last]:
+                        for x in ast.walk(b.value if isinstance(b, ast.Assign) else b):
+                            if isinstance(x, ast.Name) and isinstance(x.ctx, ast.Load) and x.id in temps:
+                                reads[x.id] = reads.get(x.id, 0) + 1
+                    if any(reads.get(nm, 0) > 1 and any(isinstance(x, ast.Call) for x in ast.walk(v)) for nm, v in temps.items()):
+                        ok = False
+                if ok:
+                    elt = copy.deepcopy(last.value.args[0])
+                    # substitute temporaries in definition order (a later temporary may use an earlier one)
+                    defs = {}
+                    for nm, v in temps.items():
+                        defs[nm] = _Renamer(dict(defs)).visit(copy.deepcopy(v))
+                    elt = _Renamer(defs).visit(elt)
+                    comp = ast.ListComp(elt=elt, generators=[ast.comprehension(target=nxt.target, iter=nxt.iter, ifs=[], is_async=0)])
+                    new = copy.deepcopy(st)
+                    new.value = comp
+                    out.append(ast.copy_location(new, st))
+                    i += 2
+                    continue
+            out.append(st)
+            i += 1
+        return out
+
+    for n in ast.walk(tree):
+        if isinstance(n, (ast.FunctionDef, ast.AsyncFunctionDef)):
+            n.body = rewrite_block(n.body, set())
+    ast.fix_missing_locations(tree)
+    return tree
+
+
 def unroll_literal_comprehensions(tree: ast.Module) -> ast.Module:
     """`[f(x) for x in (a, b)]` -> `[f(a), f(b)]` (single generator over a tuple / list display of at most 4 plain names or constants, no condition)."""
     tree = copy.deepcopy(tree)
@@ -485,6 +570,7 @@ def unroll_literal_comprehensions(tree: ast.Module) -> ast.Module:
 VIEWS = [("inline", [inline_private_helpers, unroll_literal_comprehensions]), ("loops", [unroll_literal_comprehensions, comprehensions_to_loops]),
          ("inline+loops", [inline_private_helpers, unroll_literal_comprehensions, comprehensions_to_loops]),
          ("cfnorm", [control_flow_normal_form]),
+         ("comps", [append_loops_to_comprehensions]), ("inline+comps", [inline_private_helpers, unroll_literal_comprehensions, append_loops_to_comprehensions]),
          ("inline+loops+cfnorm", [inline_private_helpers, unroll_literal_comprehensions, comprehensions_to_loops, control_flow_normal_form])]
 
 
